@@ -8,7 +8,25 @@ import io
 import itertools
 import json
 import re
+import resource
+import signal
 import sys
+
+
+class Hang(BaseException):
+    """a command that does not come back: readers spinning on a truncated input are reported, not waited for"""
+
+
+def on_alarm(signum, frame):
+    raise Hang()
+
+
+signal.signal(signal.SIGALRM, on_alarm)
+CMD_SECONDS = [30.0]     # commands take milliseconds
+try:
+    resource.setrlimit(resource.RLIMIT_AS, (8 << 30, 8 << 30))   # a spinning reader may also allocate without bound
+except Exception:  # noqa: BLE001
+    pass
 
 sys.path.insert(0, sys.argv[1])
 mod = importlib.import_module(sys.argv[2])
@@ -34,6 +52,7 @@ for line in sys.stdin:
     proto = c["proto"]
     out = io.BytesIO() if c["fout"] == "binary" else io.StringIO()
     res = {}
+    signal.setitimer(signal.ITIMER_REAL, CMD_SECONDS[0])
     try:
         src = io.BytesIO(bytes.fromhex(c["data"])) if c["fin"] == "binary" else io.StringIO(c["data"])
         R = getattr(mod, ("Binary" if c["fin"] == "binary" else "NDJson") + proto + "Reader")
@@ -85,13 +104,18 @@ for line in sys.stdin:
         r.close()
         w.close()
         res["ok"] = True
-    except Exception as ex:  # noqa: BLE001
+    except (Exception, Hang) as ex:  # noqa: BLE001
+        signal.setitimer(signal.ITIMER_REAL, 0)
         res["ok"] = False
         res["err"] = "%s: %s" % (type(ex).__name__, str(ex)[:300])
+        if isinstance(ex, Hang):
+            res["hang"] = True
+            CMD_SECONDS[0] = max(1.0, CMD_SECONDS[0] / 2)
         try:
             w._stream.flush() if c["fout"] == "binary" else None
         except Exception:  # noqa: BLE001
             pass
+    signal.setitimer(signal.ITIMER_REAL, 0)
     res["out"] = out.getvalue().hex() if c["fout"] == "binary" else out.getvalue()
     print(json.dumps(res))
     sys.stdout.flush()
